@@ -9,7 +9,7 @@ t0 = time.time()
 with open(outp, 'w') as out:
     try:
         with kani.Scratch() as sc:
-            res, meta = kani.run_harnesses(sc, pkg, hs, jobs=int(os.environ.get('JOBS', '8')), timeout=int(os.environ.get('TIMEOUT', '7200')), target_slot=slot)
+            res, meta = kani.run_harnesses(sc, pkg, hs, jobs=int(os.environ.get('JOBS', '8')), timeout=int(os.environ.get('TIMEOUT', '7200')), target_slot=slot, isolated=tuple(os.environ.get('ISOLATED', '').split()))
             for k, v in res.items():
                 print(k, v['status'], 'failed', v.get('failed'), 'checks', v.get('checks'), 'covers', v['cover_sat'], '/', v['cover_total'], 'time', v['time_s'], file=out)
                 for c in v['failed_checks']:
